@@ -246,7 +246,8 @@ def rule_neutralise(ctx, repo, models):
     ctx.check(ok, "C12.neutralise", "System.j_islands", "diagonals of isolated buses set to diag_eps, cross terms cleared",
               "Jacobian patch for isolated buses changed", j.W())
     c = F.method(repo, "System", "connectivity", SYSTEM)
-    ok = Q.has("self.Bus.islanded_a = np.array(self.Bus.islanded_buses)", c.fn) and Q.has("self.Bus.islanded_v = self.Bus.n + self.Bus.islanded_a", c.fn)
+    ok = any(Q.has("self.Bus.islanded_a = %s(self.Bus.islanded_buses%s)" % (fn_, kw), c.fn) for fn_ in ("np.array", "np.asarray")
+             for kw in ("", ", dtype=int")) and Q.has("self.Bus.islanded_v = self.Bus.n + self.Bus.islanded_a", c.fn)
     # layout assumption: Bus is the first model with algebraic variables and is not collated, a before v
     first = None
     for name, m in models.items():
